@@ -655,3 +655,174 @@ impl Tiny {
         self.0.verif_door().verif_words()
     }
 }
+
+// ---------------------------------------------------------------------------
+// traced locks
+
+/// Drop-in stand-ins for `parking_lot::{RwLock, Mutex}` as far as the crate uses them. Every
+/// acquisition is recorded (when enabled) together with the locks the thread already holds,
+/// every release too; nothing else changes: the calls block exactly as the wrapped locks do.
+pub mod locks {
+    use std::cell::RefCell;
+    use std::ops::{Deref, DerefMut};
+    use std::sync::atomic::{AtomicBool, Ordering};
+
+    /// (class, address, mode): class is "shard" | "em" | "policy" | "ring" | "other", mode 'r' | 'w' | 'm'
+    pub type Held = (&'static str, usize, char);
+
+    #[derive(Clone, Debug)]
+    pub struct LockEvent {
+        /// name of the thread
+        pub thread: String,
+        /// "want" (before the acquisition; `held` = what the thread holds then) | "rel"
+        pub kind: &'static str,
+        pub lock: Held,
+        pub held: Vec<Held>,
+    }
+
+    static ENABLED: AtomicBool = AtomicBool::new(false);
+    static LOG: parking_lot::Mutex<Vec<LockEvent>> = parking_lot::Mutex::new(Vec::new());
+    thread_local! {
+        static HELD: RefCell<Vec<Held>> = const { RefCell::new(Vec::new()) };
+    }
+
+    pub fn enable(on: bool) {
+        ENABLED.store(on, Ordering::SeqCst);
+    }
+
+    pub fn drain() -> Vec<LockEvent> {
+        std::mem::take(&mut *LOG.lock())
+    }
+
+    fn class_of<T>() -> &'static str {
+        let n = std::any::type_name::<T>();
+        if n.contains("StoreItem") {
+            "shard"
+        } else if n.contains("Bucket") {
+            "em"
+        } else if n.contains("PolicyInner") {
+            "policy"
+        } else if n.contains("Vec<u64>") {
+            "ring"
+        } else {
+            "other"
+        }
+    }
+
+    fn record(kind: &'static str, lock: Held, held: Vec<Held>) {
+        if ENABLED.load(Ordering::Relaxed) {
+            let thread = std::thread::current().name().unwrap_or("").to_string();
+            LOG.lock().push(LockEvent { thread, kind, lock, held });
+        }
+    }
+
+    /// lives as long as the guard it sits in
+    pub struct Token(Held);
+
+    impl Token {
+        fn want(lock: Held) -> Token {
+            let held = HELD.with(|h| h.borrow().clone());
+            record("want", lock, held);
+            Token(lock)
+        }
+        fn got(self) -> Token {
+            HELD.with(|h| h.borrow_mut().push(self.0));
+            self
+        }
+    }
+
+    impl Drop for Token {
+        fn drop(&mut self) {
+            HELD.with(|h| {
+                let mut h = h.borrow_mut();
+                if let Some(p) = h.iter().rposition(|x| *x == self.0) {
+                    h.remove(p);
+                }
+            });
+            record("rel", self.0, Vec::new());
+        }
+    }
+
+    #[derive(Debug)]
+    pub struct RwLock<T>(parking_lot::RwLock<T>);
+    pub struct RwLockReadGuard<'a, T> {
+        g: parking_lot::RwLockReadGuard<'a, T>,
+        _t: Token,
+    }
+    pub struct RwLockWriteGuard<'a, T> {
+        g: parking_lot::RwLockWriteGuard<'a, T>,
+        _t: Token,
+    }
+
+    impl<T> RwLock<T> {
+        pub fn new(v: T) -> Self {
+            RwLock(parking_lot::RwLock::new(v))
+        }
+        fn id(&self, mode: char) -> Held {
+            (class_of::<T>(), self as *const _ as usize, mode)
+        }
+        pub fn read(&self) -> RwLockReadGuard<'_, T> {
+            let t = Token::want(self.id('r'));
+            let g = self.0.read();
+            RwLockReadGuard { g, _t: t.got() }
+        }
+        pub fn write(&self) -> RwLockWriteGuard<'_, T> {
+            let t = Token::want(self.id('w'));
+            let g = self.0.write();
+            RwLockWriteGuard { g, _t: t.got() }
+        }
+        /// for observers: not recorded
+        pub fn raw(&self) -> &parking_lot::RwLock<T> {
+            &self.0
+        }
+    }
+    impl<T> Deref for RwLockReadGuard<'_, T> {
+        type Target = T;
+        fn deref(&self) -> &T {
+            &self.g
+        }
+    }
+    impl<T> Deref for RwLockWriteGuard<'_, T> {
+        type Target = T;
+        fn deref(&self) -> &T {
+            &self.g
+        }
+    }
+    impl<T> DerefMut for RwLockWriteGuard<'_, T> {
+        fn deref_mut(&mut self) -> &mut T {
+            &mut self.g
+        }
+    }
+
+    #[derive(Debug)]
+    pub struct Mutex<T>(parking_lot::Mutex<T>);
+    pub struct MutexGuard<'a, T> {
+        g: parking_lot::MutexGuard<'a, T>,
+        _t: Token,
+    }
+    impl<T> Mutex<T> {
+        pub fn new(v: T) -> Self {
+            Mutex(parking_lot::Mutex::new(v))
+        }
+        pub fn lock(&self) -> MutexGuard<'_, T> {
+            let t = Token::want((class_of::<T>(), self as *const _ as usize, 'm'));
+            let g = self.0.lock();
+            MutexGuard { g, _t: t.got() }
+        }
+        /// for observers: not recorded
+        pub fn raw(&self) -> &parking_lot::Mutex<T> {
+            &self.0
+        }
+    }
+    impl<T> Deref for MutexGuard<'_, T> {
+        type Target = T;
+        fn deref(&self) -> &T {
+            &self.g
+        }
+    }
+    impl<T> DerefMut for MutexGuard<'_, T> {
+        fn deref_mut(&mut self) -> &mut T {
+            &mut self.g
+        }
+    }
+}
